@@ -127,6 +127,15 @@ def structural(name, data, kind):
         chk = sum(b[:148]) + 8 * 32 + sum(b[156:512])
         b[148:156] = b"%06o\0 " % chk
         yield ("tar-size-beyond-checksum-ok", bytes(b), name)
+        # the member's modified-time field at its extremes (octal maximum, base-256 positive maximum, base-256 negative,
+        # a year beyond any calendar), header checksum made right again
+        for tag, val in (("octal-max", b"77777777777\0"), ("b256-max", bytes([0x80, 0, 0, 0, 0x7f] + [0xff] * 7)), ("b256-neg", bytes([0xff] * 12)),
+                         ("b256-year-1e6", bytes([0x80, 0, 0, 0, 0, 0, 0x1c, 0xbf, 0x6a, 0x27, 0x4b, 0x80])), ("blank", b" " * 12), ("garbage", b"9z9z9z9z9z9z")):
+            b = bytearray(data)
+            b[136:148] = val
+            chk = sum(b[:148]) + 8 * 32 + sum(b[156:512])
+            b[148:156] = b"%06o\0 " % chk
+            yield ("tar-mtime-" + tag, bytes(b), name)
 
 
 def disorder(rng, tier):
